@@ -79,6 +79,7 @@ type State struct {
 	frames  []*Frame
 	fresh   []freshObj
 	hbound  map[string]*Term // heap component -> allocation watermark at its last modification
+	spawned map[string]string // lock id -> goroutine (spawned earlier on this path) that certainly acquires it
 }
 
 func (s *State) top() *Frame { return s.frames[len(s.frames)-1] }
@@ -99,6 +100,12 @@ func (s *State) clone() *State {
 	n.ghost = make(map[string]*Term, len(s.ghost))
 	for k, v := range s.ghost {
 		n.ghost[k] = v
+	}
+	if len(s.spawned) > 0 {
+		n.spawned = make(map[string]string, len(s.spawned))
+		for k, v := range s.spawned {
+			n.spawned[k] = v
+		}
 	}
 	n.trace = append([]string{}, s.trace...)
 	n.fresh = append([]freshObj{}, s.fresh...)
